@@ -25,7 +25,7 @@ Definition tags_after (tags0 : str -> option node) (ref : str) (st : state) : st
 
 (* configuration of the copyGraph run that Copy starts *)
 Definition copy_cfg (dflt opt : Z) (refpusher mount : bool) (root : node) (cached0 : list node) : cfg :=
-  mkCfg (eff_K dflt opt) (if refpusher then MRefPush else MTagger) root mount true cached0.
+  mkCfg (eff_K dflt opt) (if refpusher then MRefPush else MTagger) root mount true cached0 [].
 
 (* internal/platform: Match and SelectManifest on a manifest list (WithTargetPlatform).
    Strings are abstracted to numbers (0 = the empty string); a platform is
